@@ -42,6 +42,12 @@ Inductive ev :=
 
 Inductive errkind := ENone | EGen | ESave.
 
+(* when the caller's context.Context is cancelled (see [run_ctx]) *)
+Inductive ctxstate :=
+| CtxLive                     (* never cancelled *)
+| CtxDoneAtCall               (* cancelled, or its deadline passed, before Execute is called *)
+| CtxDoneIn (p : bytes).      (* cancelled while package p is generated (if p is executed at all) *)
+
 Definition ev_executed (e : ev) : list bytes :=
   match e with EvExec p | EvFail p => [p] | EvSkip _ => [] end.
 Definition ev_skipped (e : ev) : list bytes :=
@@ -130,6 +136,16 @@ Section Cache.
       | _ => ({| st_tree := t'; st_sum := SumFile (sumfile_bytes cur) |}, (evs, ENone))
       end
     else ({| st_tree := t'; st_sum := st_sum st |}, (evs, ENone)).
+
+  (* Execute's first parameter, the caller's context.Context.  context.go:95-128 hands it to
+     logr.LoggerInjectContext and, through pkgExecute, to logr's Start (146, 152) and to nothing else: neither
+     Execute nor pkgExecute / doGenerate call ctx.Err() or read ctx.Done(), and the generator interface
+     (GenerateType(Context, *types.Named)) does not receive it.  So the point at which the caller gives up
+     (ctrl-c = cancel, or a deadline) — before the call, while some package is generated, never — is an
+     argument of Execute that the result does not depend on: a cancelled run is an ordinary run, it visits
+     every package of its scope, returns nil and (with All) saves the load-time hashes of all of them. *)
+  Definition run_ctx (fx : fixes) (c : ctxstate) (a : runargs) (st : state) : state * (list ev * errkind) :=
+    run fx a st.
 
   Definition step (fx : fixes) (o : op) (st : state) : state :=
     match o with
